@@ -14,6 +14,22 @@ def main():
     from cirbo.minimization.subcircuit import minimize_subcircuits
     from cirbo.synthesis.circuit_search import Basis
 
+    import mockturtle_wrapper as mw
+    import cirbo.minimization.subcircuit as sub
+
+    captured = {}
+    real = mw.enumerate_cuts
+
+    def capture(*a, **k):
+        res = real(*a, **k)
+        if 'cuts' not in captured:
+            captured['cuts'] = {n: [list(c) for c in cs] for n, cs in res.items()}
+        return res
+
+    class _MW:
+        enumerate_cuts = staticmethod(capture)
+
+    sub.mw = _MW  # observe the cut family the enumerator supplied (first call only)
     ni, gs = src['net']
     c = gen.materialize((ni, [(t, list(o)) for t, o in gs]), outputs=src['outs'])
     orig = project(copy.deepcopy(c))
@@ -45,6 +61,7 @@ def main():
             out['where'] = frames[-1].name
             out['stmt'] = ' '.join((frames[-1].line or '').split())
             out['chain'] = [f.name for f in frames][-4:]
+    out['cuts'] = captured.get('cuts', {})
     print(json.dumps(out))
 
 
